@@ -796,6 +796,27 @@ def _iter_is(it, source_text, f):
     if isinstance(it, ast.Name):
         defs = [n for n in ast.walk(f.node) if isinstance(n, ast.Assign) and len(n.targets) == 1 and
                 isinstance(n.targets[0], ast.Name) and n.targets[0].id == it.id]
+        if len(defs) == 1 and isinstance(defs[0].value, (ast.List, ast.Call)) and (
+                (isinstance(defs[0].value, ast.List) and not defs[0].value.elts) or
+                (isinstance(defs[0].value, ast.Call) and isinstance(defs[0].value.func, ast.Name) and defs[0].value.func.id == "list" and
+                 not defs[0].value.args)):
+            # a local list that starts empty and only ever receives elements inside loops over the collection: it has an element
+            # only if the collection has one
+            par_ = _parents(f.node)
+            fills = [n for n in ast.walk(f.node) if isinstance(n, ast.Call) and (
+                (isinstance(n.func, ast.Attribute) and isinstance(n.func.value, ast.Name) and n.func.value.id == it.id and
+                 n.func.attr in ("append", "insert", "extend", "add")) or
+                (ast.unparse(n.func).split(".")[-1] in ("insort", "insort_left", "insort_right", "heappush") and n.args and
+                 isinstance(n.args[0], ast.Name) and n.args[0].id == it.id))]
+            def in_source_loop(n):
+                while n in par_:
+                    n = par_[n]
+                    if isinstance(n, ast.For) and (ast.unparse(n.iter) == source_text or
+                                                   (not isinstance(n.iter, ast.Name) and _iter_is(n.iter, source_text, f))):
+                        return True
+                return False
+            if fills and all(in_source_loop(n) for n in fills):
+                return True
         if len(defs) == 1:
             return _iter_is(defs[0].value, source_text, f) if not isinstance(defs[0].value, ast.Name) else ast.unparse(defs[0].value) == source_text
     # a memo of the collection kept on the instance: every value ever stored in self.<memo> is None or a sorted / listed copy of the
@@ -1650,6 +1671,17 @@ def set_iteration(rep, idx, reach):
                 is_set = isinstance(e, (ast.Set, ast.SetComp)) or \
                     (isinstance(e, ast.Call) and isinstance(e.func, ast.Name) and e.func.id in ("set", "frozenset")) or \
                     (isinstance(e, ast.Attribute) and isinstance(e.value, ast.Name) and e.value.id == "self" and e.attr in setf)
+                # a loop that only files each element into a sorted list (bisect.insort / heapq.heappush with the element itself) or
+                # into another set / a counter: what it builds does not depend on the order of the visits
+                if is_set and isinstance(n, ast.For) and isinstance(n.target, ast.Name) and n.body and all(
+                        isinstance(b_, ast.Expr) and isinstance(b_.value, ast.Call) and
+                        ((ast.unparse(b_.value.func).split(".")[-1] in ("insort", "insort_left", "insort_right", "heappush") and
+                          len(b_.value.args) == 2 and isinstance(b_.value.args[1], ast.Name) and b_.value.args[1].id == n.target.id) or
+                         (isinstance(b_.value.func, ast.Attribute) and b_.value.func.attr in ("add", "discard") and len(b_.value.args) == 1))
+                        for b_ in n.body):
+                    rep.ok("C19.3", f.site, f"for ... in {ast.unparse(e)[:50]}", "the loop only files every element into a sorted list / a set: "
+                           "the result does not depend on the order of the visits", nontrivial=False)
+                    continue
                 if is_set:
                     rep.bad("C19.3", f.site, f"for ... in {ast.unparse(e)[:50]}", "iteration over a set in code reachable from elaborate(): the order of the "
                             "generated statements (and names) is not deterministic; iterate sorted(...)")
